@@ -121,8 +121,50 @@ Definition intents : list (name * name) := [
 Definition intent (nm : name) : name :=
   match assoc nm intents with Some i => i | None => [] end.
 
+(* ---- errors ----
+   What a field built from an error value delivers (documentation of zap.NamedError and of zapcore's
+   error encoding), stated on what the CALLER's error exposes ([einfo]) -- its message, and beyond
+   the message its %+v form when it is a fmt.Formatter, its members when it is an error group:
+     - the message, as a string under the key;
+     - an error group: under key+"Causes" the array of its non-nil members, in order, each as an object
+       holding that member AS AN ERROR under "error" (recursively: its own Verbose / Causes included);
+     - else a fmt.Formatter whose %+v text differs from the message: that text under key+"Verbose";
+     - a nil pointer on which Error() cannot be called: the string "<nil>";
+     - an Error() that panics otherwise: nothing under the key; the panic is reported as the text
+       "PANIC=.." under key+"Error" of the FIELD it belongs to (it ends the arrays it is nested in).
+   [exp_err] returns the delivery and the failure text, if any. *)
+(* the members of a group: [d] is the delivery of one member (under "error"); nil members are not
+   delivered; a member that fails is the last one delivered *)
+Definition exp_members (d : einfo -> list call * option bytes) : list (option einfo) -> list call * option bytes :=
+  fix each (l : list (option einfo)) : list call * option bytes :=
+    match l with
+    | [] => ([], None)
+    | None :: r => each r
+    | Some x :: r =>
+        match snd (d x) with
+        | None => let q := each r in ((($"object"), [], VCalls (fst (d x))) :: fst q, snd q)
+        | Some t => ([(($"object"), [], VCalls (fst (d x)))], Some t)
+        end
+    end.
+Fixpoint exp_err (k : bytes) (e : einfo) : list call * option bytes :=
+  match e with
+  | EPanic p => ([], Some (($"PANIC=") ++ p))
+  | ENilPanic => ([(($"string"), k, VStr ($"<nil>"))], None)
+  | EMsg m _ (Some l) =>
+      let r := exp_members (fun x => exp_err ($"error") x) l in
+      ([(($"string"), k, VStr m); (($"array"), k ++ ($"Causes"), VCalls (fst r))], snd r)
+  | EMsg m (Some t) None =>
+      ((($"string"), k, VStr m) :: (if bytes_eqb t m then [] else [(($"string"), k ++ ($"Verbose"), VStr t)]), None)
+  | EMsg m None None => ([(($"string"), k, VStr m)], None)
+  end.
+(* an error under key k, as a field *)
+Definition exp_error_field (k : bytes) (e : einfo) : list call :=
+  let q := exp_err k e in
+  match snd q with None => fst q | Some t => fst q ++ [(($"string"), k ++ ($"Error"), VStr t)] end.
+
 (* one element of a slice constructor: the same element, in order; nil errors skipped; an error
-   is an object holding its message under ($"error"); a Stringer is its String().  [a] is the
+   is an object holding exactly what zap.Error delivers for THAT error value (message under
+   ($"error"), and whatever else the value exposes: Verbose, Causes); a Stringer is its String().  [a] is the
    identity of the caller's slice and [i] the position of the element: where the marshal method
    is on the pointer (ObjectValues) the encoder is handed the address of the caller's OWN
    element i -- not of a copy: a copy renders the same only for as long as nobody looks again
@@ -143,7 +185,7 @@ Definition exp_elem (t : gty) (a i : Z) (x : val) : option (list call) :=
   | TIface IStringer, VOpq o => Some [(($"string"), [], VStr (ostr o))]
   | TIface IError, VNil => Some []
   | TIface IError, VOpq o =>
-      Some [(($"object"), [], VCalls [(($"string"), bs ($"error"), VStr (oerr o))])]
+      Some [(($"object"), [], VCalls (exp_error_field (bs ($"error")) (oerr o)))]
   | _, _ => None
   end.
 
@@ -193,7 +235,7 @@ Definition expected (lb : Z) (stack : bytes) (nm : name) (t : gty) (k : bytes) (
   else if bytes_eqb i ($"error") then
     match v with
     | VNil => Some []                        (* nil errors are skipped *)
-    | VOpq o => Some [(($"string"), if bytes_eqb nm ($"Error") then bs ($"error") else k, VStr (oerr o))]
+    | VOpq o => Some (exp_error_field (if bytes_eqb nm ($"Error") then bs ($"error") else k) (oerr o))
     | _ => None
     end
   else if bytes_eqb i ($"skip") then Some []
@@ -296,6 +338,38 @@ Definition fself (f : field) : bool :=
 (* ==================== wire ==================== *)
 Definition ss (b : bytes) : name := b.
 
+(* an error's [einfo]: a plain one is just its message *)
+Definition sx_of_optb (o : option bytes) : sx := match o with None => SL [] | Some b => SL [SB b] end.
+Fixpoint sx_of_einfo (e : einfo) : sx :=
+  match e with
+  | EMsg m None None => SB m
+  | EMsg m v c =>
+      SL [SZ 0; SB m; sx_of_optb v;
+          match c with
+          | None => SL []
+          | Some l => SL [SL (map (fun o => match o with None => SZ 0 | Some x => sx_of_einfo x end) l)]
+          end]
+  | ENilPanic => SL [SZ 1]
+  | EPanic p => SL [SZ 2; SB p]
+  end.
+Fixpoint einfo_of_sx (s : sx) : einfo :=
+  match s with
+  | SB m => EMsg m None None
+  | SL (SZ tag :: args) =>
+      match tag, args with
+      | 0, [SB m; v; c] =>
+          EMsg m (match v with SL [SB b] => Some b | _ => None end)
+                 (match c with
+                  | SL [SL l] => Some (map (fun x => match x with SZ _ => None | _ => Some (einfo_of_sx x) end) l)
+                  | _ => None
+                  end)
+      | 1, [] => ENilPanic
+      | 2, [SB p] => EPanic p
+      | _, _ => eplain []
+      end
+  | _ => eplain []
+  end.
+
 Fixpoint sx_of_val (v : val) : sx :=
   match v with
   | VI z => SL [SZ 0; SZ z]
@@ -308,7 +382,7 @@ Fixpoint sx_of_val (v : val) : sx :=
   | VBytes n s => SL [SZ 7; of_bool n; SB s]
   | VTime t => SL [SZ 8; SZ (tinst t); SZ (tloc t)]
   | VLoc l => SL [SZ 9; SZ l]
-  | VOpq o => SL [SZ 10; SZ (oty o); SZ (oaddr o); SZ (ocontent o); of_bool (ocmp o); of_bool (oself o); SB (ostr o); SB (oerr o)]
+  | VOpq o => SL [SZ 10; SZ (oty o); SZ (oaddr o); SZ (ocontent o); of_bool (ocmp o); of_bool (oself o); SB (ostr o); sx_of_einfo (oerr o)]
   | VNil => SL [SZ 11]
   | VPtr u => SL [SZ 12; sx_of_val u]
   | VRef a i u => SL [SZ 17; SZ a; SZ i; sx_of_val u]
@@ -332,8 +406,9 @@ Fixpoint val_of_sx (s : sx) : val :=
       | 7, [SZ n; SB b] => VBytes (negb (n =? 0)) b
       | 8, [SZ i; SZ l] => VTime {| tinst := i; tloc := l |}
       | 9, [SZ l] => VLoc l
-      | 10, [SZ a; SZ b; SZ c; SZ d; SZ e; SB f; SB g] =>
-          VOpq {| oty := a; oaddr := b; ocontent := c; ocmp := negb (d =? 0); oself := negb (e =? 0); ostr := f; oerr := g |}
+      | 10, [SZ a; SZ b; SZ c; SZ d; SZ e; SB f; g] =>
+          VOpq {| oty := a; oaddr := b; ocontent := c; ocmp := negb (d =? 0); oself := negb (e =? 0); ostr := f;
+                  oerr := einfo_of_sx g |}
       | 11, [] => VNil
       | 12, [u] => VPtr (val_of_sx u)
       | 17, [SZ a; SZ i; u] => VRef a i (val_of_sx u)
